@@ -46,3 +46,24 @@ Theorem C11_never_pulls_far_ahead_quads :
     feed stream_quad stmts s = (s', evs, ok) -> gap_ok (fsz s) 0 evs.
 Proof. exact quads_trace_gap. Qed.
 Print Assumptions C11_never_pulls_far_ahead_quads.
+
+(* Read side, from bytes: what the parser yields for the frames delivered so far does not depend on the
+   bytes that follow them -- more frames, a fragment of one, garbage, or nothing.  No look-ahead beyond
+   the frame being read is ever needed to decide what a delivered frame means. *)
+From PJ.Model Require Import Wire Spec.
+From PJ.Proofs Require Import WireProofs WireRT BytesE2E.
+Theorem C11_delivered_frames_decide_from_bytes :
+  forall (fs1 : list frame) (rest : list N) (evs1 : list event) (grouped : bool),
+    run_frames fs1 = Valid evs1 -> Forall small fs1 ->
+    (match fs1 with g :: _ => (f_rows g = [] /\ f_meta g = []) \/ f_rows g <> [] | [] => True end) ->
+    let r := parse_stream Generic grouped false (write_delimited fs1 ++ rest) in
+    exists tail, flat_events r = evs1 ++ tail /\ (length fs1 <= length (pr_frames r))%nat.
+Proof. exact delivered_frames_decide_bytes. Qed.
+Print Assumptions C11_delivered_frames_decide_from_bytes.
+
+Theorem C11_frames_read_regardless_of_what_follows :
+  forall (fs1 : list frame) (rest : list N),
+    Forall sendable fs1 ->
+    read_frames (write_delimited fs1 ++ rest) = let '(fs', e) := read_frames rest in (fs1 ++ fs', e).
+Proof. exact read_frames_prefix. Qed.
+Print Assumptions C11_frames_read_regardless_of_what_follows.
